@@ -124,8 +124,10 @@ func (P *Program) ContextPins(root *ssa.Function) (map[*ssa.Function]ssa.CallIns
 			})
 		}
 		for g, cs := range calls {
-			if len(cs) == 1 && len(P.Callers(g)) >= 2 {
-				pins[g] = cs[0]
+			if len(cs) == 1 {
+				if len(P.Callers(g)) >= 2 {
+					pins[g] = cs[0]
+				}
 				addFamily(g)
 				changed = true
 			}
